@@ -27,33 +27,53 @@ EXTRA_ENS={
  'parseRelationships':['result == nil ==> d.relationships != nil'],
 }
 TAIL='''
-// updateNextImageID only sets the image counter (V6 of DESIGN §5 is stated with C10).
+// updateNextImageID only sets the image counter, and sets it above the number of every media part named
+// word/media/image<m>.<anything> of the opened package (C10: mediaFresh, zz_contracts_verif_image.go), whatever
+// other names the package uses for its media.
 //@ func (*Document).updateNextImageID
-//@ props C06
+//@ props C06, C10
 //@ requires d != nil
 //@ modifies Document.nextImageID
+//@ ensures d.nextImageID >= 0
+//@ ensures mediaFresh(d)
 //@ loop 1
 //@   invariant unchangedHeap()
+//@   invariant maxImageID >= -1
+//@   invariant forall m int, e string :: {"word/media/" + ("image" + (itoa(m) + e))} dotExt(e) && seen(imgPart(m, e)) ==> m <= maxImageID
 
 // The opened document is usable: every container the editing and saving code dereferences exists.
+// C04 (pass-through): every entry of the archive is carried into the part map under its name with exactly its
+// bytes (the last entry of a name wins), and the part map holds nothing else.
+// partIs(p, f): the byte slice p holds exactly the content of zip entry f.
+//@ spec partIs(p []byte, f *zip.File) bool = len(p) == zfLen(f) && (forall b int :: 0 <= b && b < len(p) ==> p[b] == zfByte(f, b))
+//@ spec lastOfName(fs []*zip.File, i int, n int) bool = forall j int :: i < j && j < n ==> fs[j].FileHeader.Name != fs[i].FileHeader.Name
+
 //@ func openFromZipReader
-//@ props C06
+//@ props C06, C04
+//@ wf map:string:[]byte
 //@ requires zipReader != nil
 //@ requires forall i int :: 0 <= i && i < len(zipReader.File) ==> zipReader.File[i] != nil
 //@ ensures err == nil ==> docParts(result0)
 //@ ensures err == nil ==> elemsOK(result0.Body.Elements)
+//@ ensures err == nil ==> mediaFresh(result0)   // C10: the image counter is above every word/media/image<m>.<ext> of the package
 //@ ensures err != nil ==> result0 == nil
+//@ ensures err == nil ==> forall i int :: 0 <= i && i < len(zipReader.File) && lastOfName(zipReader.File, i, len(zipReader.File)) ==> has(result0.parts, zipReader.File[i].FileHeader.Name) && partIs(result0.parts[zipReader.File[i].FileHeader.Name], zipReader.File[i])
+//@ ensures err == nil ==> forall k string :: has(result0.parts, k) ==> exists i int :: 0 <= i && i < len(zipReader.File) && zipReader.File[i].FileHeader.Name == k
 //@ loop 1
 //@   invariant doc != nil && fresh(doc) && doc.parts != nil && doc.documentRelationships != nil
 //@   invariant forall i int :: 0 <= i && i < len(zipReader.File) ==> zipReader.File[i] != nil
+//@   invariant 0 <= #i && #i <= len(zipReader.File)
+//@   invariant forall i int :: 0 <= i && i < #i && lastOfName(zipReader.File, i, #i) ==> has(doc.parts, zipReader.File[i].FileHeader.Name) && partIs(doc.parts[zipReader.File[i].FileHeader.Name], zipReader.File[i])
+//@   invariant forall k string :: has(doc.parts, k) ==> exists i int :: 0 <= i && i < #i && zipReader.File[i].FileHeader.Name == k
 
 // Open (file path) is the same code after zip.OpenReader; it hands openFromZipReader the address of the
 // Reader embedded in the ReadCloser, an interior pointer the engine does not model, so only
 // OpenFromMemory is under contract.
 //@ func OpenFromMemory
-//@ props C06
+//@ props C06, C10
 //@ requires readCloser != nil
 //@ ensures err == nil ==> docParts(result0) && elemsOK(result0.Body.Elements)
+//@ ensures err == nil ==> mediaFresh(result0)
 //@ ensures err != nil ==> result0 == nil
 '''
 
@@ -100,7 +120,7 @@ def emit(loops):
     open('/repo/pkg/document/zz_contracts_verif_reader.go','w').write('\n'.join(out))
 emit({})
 env['GOVC_SKIP']='table2'
-o=subprocess.run(['/verif/bin/govc-dev','verify','-f','parse,skipElement,readElementText,updateNextImageID','-nosolve','-v'],env=env,capture_output=True,text=True).stdout
+o=subprocess.run(['/verif/bin/govc','verify','-f','parse,skipElement,readElementText,updateNextImageID','-nosolve','-v'],env=env,capture_output=True,text=True).stdout
 loops={}
 for line in o.splitlines():
     m=re.match(r'\s+document\.\(\*Document\)\.(\w+) loop (\d+): line \d+ block \d+ \((.*?)\)( token-loop)?',line)
